@@ -176,10 +176,10 @@ def run(cx):
     cx.ob("R08c", merge, ok, "_merge_chunks: differing neighbour -> flush and restart, same type -> merge, last pending chunk flushed" if ok else "_merge_chunks structure altered (a chunk may be lost or left unmerged)")
 
     # ------------------------------------------------------------------ R08d
-    _r08d(cx, repo, cht)
+    cx.guard(_r08d, cx, repo, cht)
     # ------------------------------------------------------------------ R08e
-    _r08e(cx, repo, cht, chunk)
-    _r08f(cx, repo, cht)
+    cx.guard(_r08e, cx, repo, cht, chunk)
+    cx.guard(_r08f, cx, repo, cht)
 
 
 class _Wrap:
